@@ -1,9 +1,11 @@
 #![allow(static_mut_refs)]
 #![allow(dead_code)]
+mod props_sched;
 mod props_seq;
 mod report;
 mod run;
 mod sched;
+mod schedx;
 mod seqx;
 mod shm;
 mod vfs;
@@ -84,6 +86,23 @@ fn main() {
             }
         }
     }
+    if args[1] == "devmem" {
+        use world::*;
+        let s = sched::Sched::new(sched::Mode::Fixed);
+        run::run_once(&s, || {
+            let mut w = World::new(vec![Cfg::parse("D").unwrap()], props_seq::k3(), false, Checks::default());
+            w.open().unwrap();
+            println!("empty usage {}", w.db().verif_info().memtable_usage);
+            for i in 0..4 {
+                w.apply(&Op::Put(i % 3, 0)).unwrap();
+                println!("after put {} usage {}", i, w.db().verif_info().memtable_usage);
+            }
+            w.apply(&Op::Batch(vec![(0, true), (1, true)])).unwrap();
+            println!("after batch2 usage {}", w.db().verif_info().memtable_usage);
+            w.close();
+        });
+        return;
+    }
     if args[1] == "selftest" {
         match selftest() {
             Ok(()) => {
@@ -109,10 +128,25 @@ fn main() {
         rep.cov("states", json!(0));
         rep.finish();
     }
-    match args[1].as_str() {
+    let id = args[1].clone();
+    let tier2 = tier.to_string();
+    let r = std::panic::catch_unwind(move || dispatch(&id, &tier2));
+    if let Err(p) = r {
+        println!("MACHINERY-ERROR: checker panicked: {}", parking_lot::verif_rt::panic_message(&*p));
+        std::process::exit(2);
+    }
+}
+
+fn dispatch(id: &str, tier: &str) {
+    match id {
         "C01" => props_seq::c01(tier),
+        "C03" => props_seq::c03(tier),
+        "C05" => props_sched::c05(tier),
+        "C06" => props_sched::c06(tier),
         "C07" => props_seq::c07(tier),
+        "C09" => props_seq::c09(tier),
         "C10" => props_seq::c10(tier),
+        "C11" => props_seq::c11(tier),
         _ => usage(),
     }
 }
